@@ -51,6 +51,11 @@ type denv struct {
 	failCreates, failTaint bool
 	nFailCreates           int
 	started                []string
+	nFailGets              int             // Provisioner.Create: reading the NodePool fails
+	failStatus             bool            // queue.markDisrupted: the DisruptionReason status patch fails
+	nFailDeletes           int             // deprovisioning: deleting this many NodeClaims fails (persistently)
+	failedDeletes          map[string]bool // the claims whose delete failed
+	inReconcile            bool
 
 	cluster *state.Cluster
 	prov    *provisioning.Provisioner
@@ -67,6 +72,7 @@ type denv struct {
 
 	gops, gobs, jops, jobs []string
 	leaked                 bool
+	orderViolation         string
 }
 
 func (e *denv) boot() {
@@ -82,7 +88,7 @@ func (e *denv) boot() {
 }
 
 func newDenv(c *kit.Ctx, r *kit.Rand) *denv {
-	e := &denv{ctx: kit.Context(), c: c, r: r, clk: clock.NewFakeClock(time.Unix(1_700_000_000, 0)), cp: fake.NewCloudProvider(), model: map[string]int{}, next: 1}
+	e := &denv{ctx: kit.Context(), c: c, r: r, clk: clock.NewFakeClock(time.Unix(1_700_000_000, 0)), cp: fake.NewCloudProvider(), model: map[string]int{}, next: 1, failedDeletes: map[string]bool{}}
 	e.cl = kit.NewClient(interceptor.Funcs{
 		Create: func(ctx context.Context, w client.WithWatch, obj client.Object, opts ...client.CreateOption) error {
 			if _, ok := obj.(*v1.NodeClaim); ok {
@@ -102,10 +108,45 @@ func newDenv(c *kit.Ctx, r *kit.Rand) *denv {
 			// queue.markDisrupted sets the DisruptionReason condition on every candidate whose command starts
 			if nc, ok := obj.(*v1.NodeClaim); ok && sub == "status" && nc.StatusConditions().Get(v1.ConditionTypeDisruptionReason).IsTrue() {
 				e.mu.Lock()
-				e.started = append(e.started, nc.Name)
+				fail := e.failStatus
+				if !fail {
+					e.started = append(e.started, nc.Name)
+				}
 				e.mu.Unlock()
+				if fail {
+					return fmt.Errorf("injected failure patching the nodeclaim status")
+				}
 			}
 			return cl.SubResource(sub).Patch(ctx, obj, patch, opts...)
+		},
+		Get: func(ctx context.Context, w client.WithWatch, key client.ObjectKey, obj client.Object, opts ...client.GetOption) error {
+			if _, ok := obj.(*v1.NodePool); ok {
+				e.mu.Lock()
+				fail := e.inReconcile && e.nFailGets > 0
+				if fail {
+					e.nFailGets--
+				}
+				e.mu.Unlock()
+				if fail {
+					return fmt.Errorf("injected failure reading the nodepool")
+				}
+			}
+			return w.Get(ctx, key, obj, opts...)
+		},
+		Delete: func(ctx context.Context, w client.WithWatch, obj client.Object, opts ...client.DeleteOption) error {
+			if nc, ok := obj.(*v1.NodeClaim); ok {
+				e.mu.Lock()
+				if e.inReconcile && !e.failedDeletes[nc.Name] && e.nFailDeletes > 0 {
+					e.nFailDeletes--
+					e.failedDeletes[nc.Name] = true
+				}
+				fail := e.inReconcile && e.failedDeletes[nc.Name]
+				e.mu.Unlock()
+				if fail {
+					return fmt.Errorf("injected failure deleting the nodeclaim")
+				}
+			}
+			return w.Delete(ctx, obj, opts...)
 		},
 		Patch: func(ctx context.Context, w client.WithWatch, obj client.Object, patch client.Patch, opts ...client.PatchOption) error {
 			if n, ok := obj.(*corev1.Node); ok && e.failTaint &&
@@ -185,14 +226,26 @@ func (e *denv) step(g, j string) {
 
 func (e *denv) opProv(replicas int64, nfail int) {
 	e.setSpec(replicas, e.limit)
+	np := e.pool()
+	byGet := nfail > 0 && e.r.Bool() // Provisioner.Create fails at the NodePool read instead of the API create
 	e.mu.Lock()
-	e.nFailCreates = nfail
+	if byGet {
+		e.nFailGets = nfail
+	} else {
+		e.nFailCreates = nfail
+	}
+	e.inReconcile = true
 	e.mu.Unlock()
-	_, _ = e.provC.Reconcile(e.ctx, e.pool())
+	_, _ = e.provC.Reconcile(e.ctx, np)
 	e.mu.Lock()
-	used := nfail - e.nFailCreates
-	e.nFailCreates = 0
+	used := nfail - e.nFailCreates - e.nFailGets
+	e.nFailCreates, e.nFailGets, e.inReconcile = 0, 0, false
 	e.mu.Unlock()
+	if used > 0 && byGet {
+		e.c.Count("D:prov:create-fails-reading-the-nodepool")
+	} else if used > 0 {
+		e.c.Count("D:prov:create-fails-at-the-api")
+	}
 	e.adopt()
 	e.step(fmt.Sprintf("(DProv %s %d%%nat)", kit.GZ(replicas), used), fmt.Sprintf("ProvisioningReconcile(replicas=%d, failing creates=%d)", replicas, used))
 	e.c.Count("D:prov")
@@ -243,6 +296,14 @@ func (e *denv) launchAll() {
 		if err := e.cluster.UpdateNode(e.ctx, node); err != nil {
 			panic(err)
 		}
+		if e.r.Chance(1, 3) { // a workload pod on the node, sometimes one that must not be disrupted
+			po := test.Pod(test.PodOptions{ObjectMeta: metav1.ObjectMeta{Name: "pod-" + nc.Name}, NodeName: nc.Name, Phase: corev1.PodRunning})
+			if e.r.Chance(1, 2) {
+				po.Annotations = map[string]string{v1.DoNotDisruptAnnotationKey: "true"}
+			}
+			kit.Apply(e.ctx, e.cl, po)
+			e.c.Count("D:node-with-pod")
+		}
 	}
 }
 
@@ -280,11 +341,11 @@ func (e *denv) opDisrupt(f int) {
 	before := e.dump()
 	e.mu.Lock()
 	e.started = nil
-	e.failTaint, e.failCreates = f == 1, f == 2
+	e.failTaint, e.failCreates, e.failStatus = f == 1, f == 2, f == 3
 	e.mu.Unlock()
 	_, _ = e.disrC.Reconcile(e.ctx)
 	e.mu.Lock()
-	e.failTaint, e.failCreates = false, false
+	e.failTaint, e.failCreates, e.failStatus = false, false, false
 	e.mu.Unlock()
 	e.adopt()
 	after := e.dump()
@@ -298,7 +359,7 @@ func (e *denv) opDisrupt(f int) {
 		e.leaked = true
 		e.c.Count("D:disrupt:reservation-left-behind")
 	}
-	fn := []string{"FNone", "FTaint", "FCreate"}[f]
+	fn := []string{"FNone", "FTaint", "FCreate", "FStatus"}[f]
 	e.step(fmt.Sprintf("(DDisrupt %s %d%%nat %d%%nat %s %s)", kit.GZ(e.replicas), budgets["spool"], len(cands), fn, kit.GList(started)),
 		fmt.Sprintf("DisruptionReconcile(budget=%d, drifted candidates=%d, fault=%s) started=%d", budgets["spool"], len(cands), fn[1:], len(started)))
 	e.c.Count("D:disrupt:" + fn[1:])
@@ -307,31 +368,121 @@ func (e *denv) opDisrupt(f int) {
 	}
 }
 
-func (e *denv) opDeprov(replicas int64) {
+// rank of a claim in the documented scale-down order: unresolved, empty node, node with pods, node with do-not-disrupt pods
+func (e *denv) rank(nc *v1.NodeClaim) int {
+	if nc.Status.ProviderID == "" {
+		return 0
+	}
+	pods := &corev1.PodList{}
+	if err := e.cl.List(e.ctx, pods, client.MatchingFields{"spec.nodeName": nc.Name}); err != nil {
+		panic(err)
+	}
+	r := 1
+	for _, p := range pods.Items {
+		if r < 2 {
+			r = 2
+		}
+		if p.Annotations[v1.DoNotDisruptAnnotationKey] == "true" {
+			r = 3
+		}
+	}
+	return r
+}
+
+func (e *denv) opDeprov(replicas int64, nfail int) {
 	e.setSpec(replicas, e.limit)
 	before := e.dump()
-	names := lo.Map(e.claims(), func(nc *v1.NodeClaim, _ int) string { return nc.Name })
-	_, _ = e.deprovC.Reconcile(e.ctx, e.pool())
+	ranks := map[string]int{}
+	for _, nc := range e.claims() {
+		if nc.DeletionTimestamp.IsZero() && !lo.Contains(before.Deleting, nc.Name) {
+			ranks[nc.Name] = e.rank(nc)
+		}
+	}
+	np := e.pool()
+	e.mu.Lock()
+	e.nFailDeletes, e.failedDeletes, e.inReconcile = nfail, map[string]bool{}, true
+	e.mu.Unlock()
+	_, _ = e.deprovC.Reconcile(e.ctx, np)
+	e.mu.Lock()
+	failed := len(e.failedDeletes)
+	e.nFailDeletes, e.failedDeletes, e.inReconcile = 0, map[string]bool{}, false
+	e.mu.Unlock()
 	after := e.dump()
-	var victims, gone []string
+	var victims, gone, vnames []string
 	left := lo.Map(e.claims(), func(nc *v1.NodeClaim, _ int) string { return nc.Name })
 	for _, n := range after.Deleting {
 		if !lo.Contains(before.Deleting, n) {
 			victims = append(victims, gname(e.model[n]))
+			vnames = append(vnames, n)
 			if !lo.Contains(left, n) { // no finalizer: the object is gone; its delete event follows
 				e.cluster.DeleteNodeClaim(n)
 				gone = append(gone, gname(e.model[n]))
 			}
 		}
 	}
-	_ = names
-	e.step(fmt.Sprintf("(DDeprov %s %s %s)", kit.GZ(replicas), kit.GList(victims), kit.GList(gone)),
-		fmt.Sprintf("DeprovisioningReconcile(replicas=%d) deleted=%d", replicas, len(victims)))
-	if len(victims) > 0 {
+	// scale-down order (only when nothing failed): no survivor ranks strictly before a victim
+	if failed == 0 {
+		worst := -1
+		for _, v := range vnames {
+			if rk, ok := ranks[v]; ok && rk > worst {
+				worst = rk
+			}
+		}
+		for n, rk := range ranks {
+			if !lo.Contains(vnames, n) && rk < worst {
+				e.orderViolation = fmt.Sprintf("deprovisioning deleted a claim of rank %d while %s of rank %d survived (0 unresolved, 1 empty, 2 pods, 3 do-not-disrupt pods)", worst, n, rk)
+			}
+		}
+		if worst >= 2 {
+			e.c.Count("D:deprov:deleted-a-node-with-pods")
+		}
+	}
+	e.step(fmt.Sprintf("(DDeprov %s %s %s %d%%nat)", kit.GZ(replicas), kit.GList(victims), kit.GList(gone), failed),
+		fmt.Sprintf("DeprovisioningReconcile(replicas=%d, failing deletes=%d) deleted=%d", replicas, failed, len(victims)))
+	switch {
+	case failed > 0:
+		e.c.Count("D:deprov:delete-failed")
+	case len(victims) > 0:
 		e.c.Count("D:deprov:scaled-down")
-	} else {
+	default:
 		e.c.Count("D:deprov:nothing")
 	}
+}
+
+// reconciles that must not act: the NodePool passed in is not ready / being deleted / not managed / not static
+func (e *denv) opSkip(kind int) {
+	np := e.pool()
+	n := int64(len(e.claims()))
+	up, down := n+2, int64(0)
+	switch kind {
+	case 0:
+		np.StatusConditions().SetFalse(v1.ConditionTypeValidationSucceeded, "Invalid", "invalid")
+	case 1:
+		np.DeletionTimestamp = &metav1.Time{Time: e.clk.Now()}
+	case 2:
+		np.Spec.Template.Spec.NodeClassRef.Group = "unmanaged.example.com"
+	}
+	np.Spec.Replicas = &up
+	_, _ = e.provC.Reconcile(e.ctx, np)
+	if kind != 0 { // deprovisioning does not look at readiness
+		np.Spec.Replicas = &down
+		_, _ = e.deprovC.Reconcile(e.ctx, np)
+	}
+	e.adopt()
+	e.step("DSkip", []string{"Reconciles(NodePool not ready)", "Reconciles(NodePool deleting)", "Reconciles(NodePool not managed)"}[kind])
+	e.c.Count("D:skip:" + []string{"nodepool-not-ready", "nodepool-deleting", "nodepool-not-managed"}[kind])
+}
+
+// the disruption controller while a NodeClaim has not launched: Cluster.Synced() is false, nothing may happen
+func (e *denv) opDisruptUnsynced() bool {
+	if !lo.ContainsBy(e.claims(), func(nc *v1.NodeClaim) bool { return nc.Status.ProviderID == "" }) || !e.cluster.HasSynced() {
+		return false
+	}
+	_, _ = e.disrC.Reconcile(e.ctx)
+	e.adopt()
+	e.step("DSkip", "DisruptionReconcile(an unlaunched NodeClaim exists)")
+	e.c.Count("D:skip:disruption-not-synced")
+	return true
 }
 
 // the termination path: the claim (and its node) leaves the API, the delete events arrive
@@ -345,6 +496,10 @@ func (e *denv) opFinalize(nc *v1.NodeClaim) {
 	}
 	if err := e.cl.Delete(e.ctx, nc); client.IgnoreNotFound(err) != nil {
 		panic(err)
+	}
+	po := &corev1.Pod{}
+	if e.cl.Get(e.ctx, client.ObjectKey{Namespace: "default", Name: "pod-" + name}, po) == nil {
+		_ = e.cl.Delete(e.ctx, po)
 	}
 	node := &corev1.Node{}
 	if e.cl.Get(e.ctx, client.ObjectKey{Name: name}, node) == nil {
@@ -365,6 +520,7 @@ func (e *denv) opLimit(l int64) {
 }
 
 func (e *denv) opRestart() {
+	unlaunched := lo.ContainsBy(e.claims(), func(nc *v1.NodeClaim) bool { return nc.Status.ProviderID == "" })
 	e.boot()
 	var replay []string
 	nodes := &corev1.NodeList{}
@@ -374,13 +530,37 @@ func (e *denv) opRestart() {
 			panic(err)
 		}
 	}
-	for _, nc := range e.claims() {
+	all := e.claims()
+	first := len(all)
+	if len(all) > 0 && !unlaunched && e.r.Chance(1, 2) { // the informer has delivered only some of the claims so far
+		first = e.r.Intn(len(all))
+	}
+	for _, nc := range all[:first] {
 		e.cluster.UpdateNodeClaim(nc)
 		del := nc.Status.ProviderID != "" && !nc.DeletionTimestamp.IsZero()
 		replay = append(replay, kit.GPair(gname(e.model[nc.Name]), kit.GBool(del)))
 	}
-	e.step(fmt.Sprintf("(DRestart %s)", kit.GList(replay)), fmt.Sprintf("Restart(replayed %d claims)", len(replay)))
+	e.step(fmt.Sprintf("(DRestart %s)", kit.GList(replay)), fmt.Sprintf("Restart(replayed %d of %d claims)", first, len(all)))
 	e.c.Count("D:restart")
+	switch {
+	case first < len(all):
+		// not synced: a provisioning reconcile that would scale up must wait (the model's gate is closed as well)
+		e.opProv(int64(len(all))+1, 0)
+		e.c.Count("D:restart:reconcile-before-replay-complete")
+		for _, nc := range all[first:] {
+			e.opInfUpd(nc)
+		}
+	case unlaunched:
+		// everything replayed, but an unlaunched claim keeps Cluster.Synced() false
+		np := e.pool()
+		up := int64(len(all)) + 1
+		np.Spec.Replicas = &up
+		_, _ = e.provC.Reconcile(e.ctx, np)
+		e.adopt()
+		e.step("DSkip", "ProvisioningReconcile(restarted, an unlaunched NodeClaim exists)")
+		e.c.Count("D:skip:first-sync-with-unlaunched-claim")
+		e.launchAll() // the model has no notion of "launched": from here on both sides are synced
+	}
 }
 
 // claims the NodePoolState or the API consider on their way out
@@ -401,8 +581,13 @@ func runD(c *kit.Ctx, r *kit.Rand, scripted int) {
 		limit0 = 3
 	}
 	e.limit = limit0
+	budget := kit.Pick(r, []string{"100%", "100%", "100%", "1", "0"})
+	if scripted > 0 {
+		budget = "100%"
+	}
+	c.Count("D:budget:" + budget)
 	np := test.StaticNodePool(v1.NodePool{ObjectMeta: metav1.ObjectMeta{Name: "spool"}, Spec: v1.NodePoolSpec{Replicas: new(int64),
-		Disruption: v1.Disruption{Budgets: []v1.Budget{{Nodes: "100%"}}}}})
+		Disruption: v1.Disruption{Budgets: []v1.Budget{{Nodes: budget}}}}})
 	if limit0 != math.MaxInt64 {
 		np.Spec.Limits = v1.Limits(corev1.ResourceList{"nodes": *resource.NewQuantity(limit0, resource.DecimalSI)})
 	}
@@ -418,23 +603,33 @@ func runD(c *kit.Ctx, r *kit.Rand, scripted int) {
 		n := r.Range(3, 8)
 		for i := 0; i < n; i++ {
 			cl := e.claims()
-			switch k := r.Intn(12); {
+			switch k := r.Intn(13); {
 			case k <= 2:
 				nfail := 0
 				if r.Chance(1, 4) {
 					nfail = 1
 				}
 				e.opProv(int64(r.Range(0, 5)), nfail)
-			case k <= 5 && len(cl) > 0:
-				e.opDisrupt(kit.Pick(r, []int{0, 0, 0, 1, 2}))
+			case (k <= 5 || k == 12) && len(cl) > 0:
+				if !(r.Chance(1, 4) && e.opDisruptUnsynced()) {
+					e.opDisrupt(kit.Pick(r, []int{0, 0, 0, 1, 2, 3}))
+				}
 			case k <= 7:
-				e.opDeprov(int64(r.Range(0, 4)))
+				nfail := 0
+				if r.Chance(1, 4) {
+					nfail = 1
+				}
+				e.opDeprov(int64(r.Range(0, 4)), nfail)
+			case k == 11 && r.Chance(1, 2):
+				e.opSkip(r.Intn(3))
 			case k == 8 && len(e.leaving()) > 0:
 				e.opFinalize(kit.Pick(r, e.leaving()))
 			case k == 9 && e.limit != math.MaxInt64:
 				e.opLimit(int64(r.Range(0, 5)))
 			case k == 10:
-				e.launchAll()
+				if r.Chance(2, 3) {
+					e.launchAll()
+				}
 				e.opRestart()
 			default:
 				if len(cl) > 0 {
@@ -457,7 +652,7 @@ func runD(c *kit.Ctx, r *kit.Rand, scripted int) {
 		}
 		e.opProv(replicas, 0)
 		e.launchAll()
-		e.opDeprov(replicas)
+		e.opDeprov(replicas, 0)
 		for _, nc := range e.leaving() {
 			e.opFinalize(nc)
 		}
@@ -473,6 +668,9 @@ func runD(c *kit.Ctx, r *kit.Rand, scripted int) {
 		c.Count("D:NOT-settled(reservation left behind by a failed disruption command)")
 	default:
 		c.Count("D:NOT-SETTLED-other")
+	}
+	if e.orderViolation != "" {
+		c.Fail(c.NextID(), e.orderViolation, "", map[string]interface{}{"kind": "static-protocol", "ops": e.jops})
 	}
 	g := fmt.Sprintf("CaseD %s %s %s (Some (%s, %s, %s))", kit.GZ(limit0), kit.GList(e.gops), kit.GList(e.gobs), kit.GZ(replicas), kit.GZ(e.limit), kit.GZ(int64(final)))
 	c.AddCase(g, map[string]interface{}{"kind": "static-protocol", "kf_key": kf, "node_limit": limit0, "ops": e.jops, "obs": e.jobs,
